@@ -20,7 +20,8 @@ ASSUMPTIONS = ["score(X) is compared with the naive reference GEMINI of predict_
                "for ints) are not generated"]
 EVAL_COUNTER = "fits"
 REQUIRED = {"quick": dict({"fits": 500, "contracts_complete": 450, "score_vs_reference": 150, "list_input": 40,
-                           "int_input": 40, "k_equals_one": 15, "k_equals_n": 10},
+                           "int_input": 40, "k_equals_one": 15, "k_equals_n": 10, "douglas_long_fits": 50,
+                           "douglas_long_cut_points_out_of_order": 8},
                           **{"fit:" + e: 12 for e in gen.ESTIMATORS}),
             "thorough": dict({"fits": 10000, "contracts_complete": 9000}, **{"fit:" + e: 300 for e in gen.ESTIMATORS})}
 SHARD_TIMEOUT = {"quick": 1200, "thorough": 7000}
@@ -28,7 +29,8 @@ SHARD_TIMEOUT = {"quick": 1200, "thorough": 7000}
 
 def cases(tier, seed):
     n = 640 if tier == "quick" else 12000
-    return [{"kind": "fit", "seed": seed, "i": i} for i in range(n)]
+    m = 64 if tier == "quick" else 1200
+    return [{"kind": "fit", "seed": seed, "i": i} for i in range(n)] + [{"kind": "douglas-long", "seed": seed, "i": i} for i in range(m)]
 
 
 def setup(ctx):
@@ -52,7 +54,54 @@ def where(exc):
     return "outside-gemclus"
 
 
+def run_douglas_long(case, ctx):
+    """Douglas trained long enough, with several cut points per feature and large steps, for the cut points of one
+    feature to overtake each other: the fitted model must still be one model (labels_ = predict on the training data)."""
+    i = case["i"]
+    rng = gen.rng_for(case["seed"], ID, "douglas-long", i)
+    n, d, K = int(rng.integers(40, 200)), int(rng.integers(1, 3)), int(rng.integers(2, 5))
+    X = gen.make_data(rng, n, d, "blobs", centers=K)
+    X = (X - X.mean(0)) / np.where(X.std(0) > 0, X.std(0), 1.0)
+    names = ["mmd_ova", "kl_ova", "tv_ovo", "hellinger_ova", "mmd_ovo", "chi2_ova"] + (["wasserstein_ova"] if n < 70 else [])
+    params = {"n_clusters": K, "n_cuts": int(rng.integers(2, 5)), "gemini": names[int(rng.integers(0, len(names)))],
+              "max_iter": int(rng.integers(50, 200)), "learning_rate": float(10 ** rng.uniform(-1.5, -0.5)),
+              "temperature": float(10 ** rng.uniform(-1, 0)), "random_state": gen.subseed(rng) % 100000,
+              "solver": ["adam", "adam", "sgd"][int(rng.integers(0, 3))]}
+    ctx.case = dict(case, estimator="Douglas", params=params, n=n, d=d)
+    ctx.count("douglas_long_fits")
+    est = gen.build_estimator("Douglas", params)
+    try:
+        est.fit(X)
+        labels = np.asarray(est.labels_)
+        P = np.asarray(est.predict_proba(X))
+        pred = np.asarray(est.predict(X))
+    except Exception as e:
+        ctx.violation("fit-succeeds", f"fit-raises/Douglas/{type(e).__name__}@{where(e)}/array",
+                      observed={"exc": repr(e)[:300], "params": params, "n": n, "d": d}, expected="fit returns")
+        return
+    if not np.all(np.isfinite(P)):
+        ctx.count("douglas_long_nonfinite")        # divergence under large steps: C17's business
+        return
+    if any(np.any(np.diff(np.asarray(c, dtype=float).ravel()) < 0) for _, c in est.cut_points_list_):
+        ctx.count("douglas_long_cut_points_out_of_order")
+    bad = []
+    if not (labels.shape == (n,) and labels.min() >= 0 and labels.max() < K):
+        bad.append(("labels-range", [int(labels.min()), int(labels.max()), K]))
+    if not np.array_equal(pred, labels):
+        bad.append(("predict-train-differs-from-labels", {"n_diff": int(np.sum(pred != labels)), "n": n}))
+    if not (P.shape == (n, K) and np.all(P >= 0) and np.all(np.abs(P.sum(1) - 1) <= 1e-9)):
+        bad.append(("proba-rows-not-normalised", None))
+    elif not np.array_equal(pred, P.argmax(1)):
+        bad.append(("predict-not-argmax", None))
+    ctx.count("contracts_complete")
+    ctx.distinct("Douglas-long", params, X.tobytes().hex()[:48])
+    for what, obs in bad[:2]:
+        ctx.violation("post-fit-contract", f"{what}/Douglas", observed={"detail": obs, "params": params, "n": n}, expected=what)
+
+
 def run_case(case, ctx, st):
+    if case.get("kind") == "douglas-long":
+        return run_douglas_long(case, ctx)
     i = case["i"]
     rng = gen.rng_for(case["seed"], ID, "fit", i)
     names = list(gen.ESTIMATORS)
@@ -148,7 +197,8 @@ def run_case(case, ctx, st):
             # score == documented GEMINI of predict_proba(X) with the affinity the parameters describe
             dist, ovo, spec = gen.expected_objective(name, params)
             A = gen.expected_affinity(spec, X, y)
-            eps = 1e-12
+            # the clipping bound is part of the GEMINI object the parameters describe
+            eps = float(params["gemini"].get("epsilon", 1e-12)) if isinstance(params.get("gemini"), dict) else 1e-12
             if np.all(np.isfinite(P)) and P.shape == (n, K):
                 interior = bool(np.all(P > eps) and np.all(P < 1 - eps))
                 ref = None
@@ -173,11 +223,11 @@ def run_case(case, ctx, st):
                     cls = {"kl": gg.KLGEMINI, "tv": gg.TVGEMINI, "hellinger": gg.HellingerGEMINI,
                            "chi2": gg.ChiSquareGEMINI, "mmd": gg.MMDGEMINI, "wasserstein": gg.WassersteinGEMINI}[dist]
                     if dist == "mmd":
-                        obj = cls(ovo=ovo, kernel="precomputed")
+                        obj = cls(ovo=ovo, kernel="precomputed", epsilon=eps)
                     elif dist == "wasserstein":
-                        obj = cls(ovo=ovo, metric="precomputed")
+                        obj = cls(ovo=ovo, metric="precomputed", epsilon=eps)
                     else:
-                        obj = cls(ovo=ovo)
+                        obj = cls(ovo=ovo, epsilon=eps)
                     if not (dist == "tv" and ovo and K == 1):
                         val = float(np.asarray(obj(P, A)).reshape(-1)[0])
                         ctx.count("score_vs_documented_class")
@@ -199,8 +249,8 @@ def run_case(case, ctx, st):
                     import gemclus.gemini as gg
                     cls2 = {"kl": gg.KLGEMINI, "tv": gg.TVGEMINI, "hellinger": gg.HellingerGEMINI,
                             "chi2": gg.ChiSquareGEMINI, "mmd": gg.MMDGEMINI, "wasserstein": gg.WassersteinGEMINI}[dist]
-                    obj2 = cls2(ovo=ovo, kernel="precomputed") if dist == "mmd" else (
-                        cls2(ovo=ovo, metric="precomputed") if dist == "wasserstein" else cls2(ovo=ovo))
+                    obj2 = cls2(ovo=ovo, kernel="precomputed", epsilon=eps) if dist == "mmd" else (
+                        cls2(ovo=ovo, metric="precomputed", epsilon=eps) if dist == "wasserstein" else cls2(ovo=ovo, epsilon=eps))
                     A2 = gen.expected_affinity(spec, X2, None)
                     val2 = float(np.asarray(obj2(P2, A2)).reshape(-1)[0])
                     sc2 = est.score(X2)
